@@ -42,6 +42,9 @@ func orderUnknownFirst(fs []*finding, findingsFile string) []*finding {
 // construct maps a token role to the grammatical construct it belongs to.
 func construct(role string) string {
 	role = strings.TrimPrefix(role, "mapkey:")
+	if role == "route.semi" {
+		return "semicolon"
+	}
 	c := role
 	if i := strings.IndexByte(role, '.'); i >= 0 {
 		c = role[:i]
@@ -51,8 +54,72 @@ func construct(role string) string {
 		return "datatype"
 	case "embed":
 		return "field"
+	case "ebody":
+		return "empty-body"
 	}
 	return c
+}
+
+// Roles of the routes family (routes.go) that no program of the older families contains. A position
+// next to one of them is a position of its own; it never enters the position set of a class of the
+// older families (whose signatures are listed in known_findings.txt).
+
+// legacyRole: the same token of a NON-empty body.
+func legacyRole(role string) string {
+	if strings.HasPrefix(role, "ebody.") {
+		return "body." + strings.TrimPrefix(role, "ebody.")
+	}
+	return role
+}
+
+// commentClass: class prefix of a failing comment position (without the position signature).
+func commentClass(oracle, ck, after, before string, edge bool) string {
+	pre := ""
+	if edge {
+		pre = "empty-"
+	}
+	switch oracle {
+	case "comment-lost", "comment-changed", "comment-duplicated":
+		return oracle + "|in:" + pre + construct(attachedRole(ck, after, before))
+	}
+	return oracle + "|comment|" + pre + construct(after) + ">" + construct(before)
+}
+
+// routesClass: class prefix of a failing comment position in a program of the routes family, i.e.
+// next to / inside a route that has a part which prints nothing ("()", "returns ()", ";") — ONE
+// cause key per oracle: what such a part does to the comments around it. (The positions that fail
+// in the same way at a non-empty body are not in it, see classify.)
+func routesClass(oracle string) string {
+	switch oracle {
+	case "comment-lost", "comment-changed", "comment-duplicated":
+		return oracle + "|at:optional-route-part"
+	}
+	return oracle + "|comment|optional-route-part"
+}
+
+func sigOfKey(k string) (prefix, sig string) {
+	if i := strings.LastIndex(k, "|pos="); i >= 0 {
+		return k[:i], k[i+len("|pos="):]
+	}
+	return k, ""
+}
+
+// listedPositions: position lists (knownpos.go) of the classes listed in known_findings.txt, by class
+// prefix. A list is used only when its signature is the one of the listed key, so it can never
+// disagree with known_findings.txt.
+func listedPositions(known []string) map[string]map[string]bool {
+	out := map[string]map[string]bool{}
+	for _, k := range known {
+		prefix, sig := sigOfKey(k)
+		if ps, ok := knownPositions[k]; ok && sig != "" && posSig(ps) == sig {
+			m := map[string]bool{}
+			for _, p := range ps {
+				m[p] = true
+			}
+			out[prefix] = m
+		}
+	}
+	return out
 }
 
 // digitsToN replaces every run of decimal digits by "N".
@@ -144,13 +211,14 @@ func classify(fs []*finding, partial bool, findingsFile string) []*finding {
 		rank  int
 		cases int64
 		pos   map[string]bool
-		sig   bool // the class key carries the signature of its full position set
+		byPos map[string]*finding // smallest failing case per position
+		sig   bool                // the class key carries the signature of its full position set
 	}
 	groups := map[string]*group{}
 	add := func(class string, rank int, f *finding, pos string) {
 		g := groups[class]
 		if g == nil {
-			g = &group{f: f, rank: rank, pos: map[string]bool{}}
+			g = &group{f: f, rank: rank, pos: map[string]bool{}, byPos: map[string]*finding{}}
 			groups[class] = g
 		} else if f.size < g.f.size || (f.size == g.f.size && f.rc.Src < g.f.rc.Src) {
 			g.f = f
@@ -158,6 +226,9 @@ func classify(fs []*finding, partial bool, findingsFile string) []*finding {
 		g.cases += f.count
 		if pos != "" {
 			g.pos[pos] = true
+			if o := g.byPos[pos]; o == nil || f.size < o.size || (f.size == o.size && f.rc.Src < o.rc.Src) {
+				g.byPos[pos] = f
+			}
 		}
 	}
 	// base failures: keep only the minimal failing shapes (a failing program whose tokens include
@@ -232,6 +303,22 @@ func classify(fs []*finding, partial bool, findingsFile string) []*finding {
 			crashRaw[n][f.key] = true
 		}
 	}
+	known := knownC20(findingsFile)
+	listed := listedPositions(known)
+	legacyObserved := map[string]map[string]bool{} // class prefix -> failing positions between roles of the older families
+	for _, f := range fs {
+		p := strings.Split(f.key, "|")
+		if p[0] != "comment" || strings.HasSuffix(f.key, "|edge") || strings.HasSuffix(f.key, "|routes") || strings.HasSuffix(f.key, "|whole") {
+			continue
+		}
+		after, before := keyField(f.key, "after"), keyField(f.key, "before")
+		k := commentClass(p[1], p[2], after, before, false)
+		if legacyObserved[k] == nil {
+			legacyObserved[k] = map[string]bool{}
+		}
+		legacyObserved[k][p[2]+":"+after+">"+before] = true
+	}
+	folded := map[string]int{}
 	for _, f := range fs {
 		p := strings.Split(f.key, "|")
 		switch p[0] {
@@ -259,24 +346,53 @@ func classify(fs []*finding, partial bool, findingsFile string) []*finding {
 		case "accepted-mutant":
 			// one class per oracle and mutation kind (the token context goes to failing_positions)
 			add("accepted-mutant|"+p[1]+"|"+p[2], 10+oracleRank[p[1]], f, strings.Join(p[3:], " "))
-		case "comment":
+		case "break": // break|oracle|kind|after=|before=[|edge|routes|whole]: a line break / an empty line, no comment
 			oracle, ck := p[1], p[2]
 			after, before := keyField(f.key, "after"), keyField(f.key, "before")
-			pos := ck + ":" + after + ">" + before
 			pre := ""
 			if strings.HasSuffix(f.key, "|edge") {
 				pre = "empty-"
 			}
-			switch oracle {
-			case "comment-lost", "comment-changed", "comment-duplicated":
-				k := oracle + "|in:" + pre + construct(attachedRole(ck, after, before))
-				add(k, 30+oracleRank[oracle], f, pos)
-				groups[k].sig = true
-			default:
-				k := oracle + "|comment|" + pre + construct(after) + ">" + construct(before)
-				add(k, 20+oracleRank[oracle], f, pos)
-				groups[k].sig = true
+			k := oracle + "|line-break|" + pre + construct(after) + ">" + construct(before)
+			if strings.HasSuffix(f.key, "|routes") {
+				k = oracle + "|line-break|optional-route-part"
 			}
+			if strings.HasSuffix(f.key, "|whole") {
+				k = "whole-value-empty+line-break|" + oracle
+			}
+			add(k, 15+oracleRank[oracle], f, ck+":"+after+">"+before)
+			groups[k].sig = true
+		case "comment":
+			oracle, ck := p[1], p[2]
+			after, before := keyField(f.key, "after"), keyField(f.key, "before")
+			pos := ck + ":" + after + ">" + before
+			edge := strings.HasSuffix(f.key, "|edge")
+			k := commentClass(oracle, ck, after, before, edge)
+			if strings.HasSuffix(f.key, "|routes") || strings.HasSuffix(f.key, "|whole") {
+				// a program with an optional route part. When the same oracle fails at the same position of
+				// the older families, where every body is non-empty and no semicolon occurs (observed in
+				// this run, or in the listed position set of that class), the part is not the cause: the
+				// case is counted there, the position sets of those classes are left alone
+				if after != "route.semi" && before != "route.semi" {
+					la, lb := legacyRole(after), legacyRole(before)
+					lk := commentClass(oracle, ck, la, lb, false)
+					lpos := ck + ":" + la + ">" + lb
+					if legacyObserved[lk][lpos] || listed[lk][lpos] {
+						folded[lk]++
+						continue
+					}
+				}
+				k = routesClass(oracle)
+			}
+			if strings.HasSuffix(f.key, "|whole") {
+				k = "whole-value-empty+comment|" + oracle
+			}
+			rank := 20
+			if strings.HasPrefix(oracle, "comment-") {
+				rank = 30
+			}
+			add(k, rank+oracleRank[oracle], f, pos)
+			groups[k].sig = true
 		default:
 			add(f.key, 50, f, "")
 		}
@@ -298,7 +414,9 @@ func classify(fs []*finding, partial bool, findingsFile string) []*finding {
 		}
 		return gs[a].k < gs[b].k
 	})
-	known := knownC20(findingsFile)
+	for k, n := range folded {
+		rep.Count("routes_family_cases_failing_like_the_same_position_of_the_older_families:"+classKey(k), n)
+	}
 	var out []*finding
 	for _, e := range gs {
 		f := *e.g.f
@@ -312,14 +430,48 @@ func classify(fs []*finding, partial bool, findingsFile string) []*finding {
 			sort.Strings(ps)
 			f.rc.Positions = ps
 			if e.g.sig {
+				cls := f.key
 				prefix := f.key + "|pos="
 				f.key = prefix + posSig(ps)
+				// a class whose position set goes beyond the listed one: show a case at a position outside it
+				if lp, ok := listed[cls]; ok {
+					var best *finding
+					for _, p := range ps {
+						if o := e.g.byPos[p]; !lp[p] && o != nil && (best == nil || o.size < best.size || (o.size == best.size && o.rc.Src < best.rc.Src)) {
+							best = o
+						}
+					}
+					if best != nil {
+						f.rc, f.size = best.rc, best.size
+						f.rc.Positions = ps
+					}
+				}
 				if partial {
+					// the run was cut: the position set may be incomplete. Positions of the listed set are the
+					// listed class; a position OUTSIDE the listed set is new whatever else was not enumerated
 					for _, k := range known {
-						if strings.HasPrefix(k, prefix) {
-							f.key = k
+						if !strings.HasPrefix(k, prefix) {
+							continue
+						}
+						lp, ok := listed[cls]
+						if !ok {
+							f.key = k // no position list for this listed key: report under it, as before
 							break
 						}
+						var extra []string
+						for _, p := range ps {
+							if !lp[p] {
+								extra = append(extra, p)
+							}
+						}
+						if len(extra) == 0 {
+							f.key = k
+						} else {
+							f.key = k + "+" + posSig(extra)
+							f.rc.Positions = extra
+							f.rc.Detail = "positions outside the listed set of " + k + " (incomplete run) | " + f.rc.Detail
+						}
+						break
 					}
 				}
 			}
